@@ -177,3 +177,14 @@ def suites(tier, seed):
         Suite("batches", "machine", lambda: gen(tier, seed), monitor=monitor, nontrivial=nontrivial, exhaustive=True,
               rule="ALL ordered selections of 1..4 of the five event kinds {A server connection close, B server close of channel 1, C channel-0 request (open_channel / listen_for_connection_blocked / Connection::close), D request on channel 1, E request on channel 2} = 205 batches x 6 pre-states (idle; calls in flight; consumer with half-received content; listeners; client close already sent; channel 2 not open), requests made pending first, the real poll consulted, then the events handed to the real handle_steady_event in batch order; A and B share one stream event in the order given"),
     ]
+
+
+# --- suites of neighbouring properties that also decide this one (cross-listed after wave 6) ---------
+_suites_before_wave6 = suites
+
+
+def suites(tier, seed):
+    m = __import__("props.c18", fromlist=["x"])
+    # (the stall runs in which the server closes a channel / the client closes the connection at the
+    #  very end of a stall, with the pass log on: what the loop does at the end of every pass)
+    return [s_ for s_ in m.suites(tier, seed) if s_.name == "loop-passes"] + _suites_before_wave6(tier, seed)
